@@ -6,12 +6,13 @@
 (* RoundTrip on every class and emits the cells for the replay.             *)
 EXTENDS Naturals, Sequences, FiniteSets, TLC, Json
 
-CONSTANTS StrictInt    \* TRUE: Int/ConstantInt validators accept exactly `int` (as coded after the fix)
+CONSTANTS StrictInt,    \* TRUE: Int/ConstantInt validators accept exactly `int` (as coded after the fix)
+          HexFallback   \* TRUE: INT/LONG write hexadecimal text when the decimal conversion is refused (a mutated design)
 
-ValueClass == {"bool", "int_u8", "int_u16", "int_big", "int_neg", "float_integral", "float_fractional",
+ValueClass == {"bool", "int_u8", "int_u16", "int_big", "int_neg", "int_huge", "float_integral", "float_fractional",
                "float_inf", "float_nan", "str_numeric", "str_short", "str_long", "str_layout", "bytes_numeric",
                "bytes_short", "bytes_long", "none", "list", "dict", "other"}
-IsInt(v)   == v \in {"int_u8", "int_u16", "int_big", "int_neg"}
+IsInt(v)   == v \in {"int_u8", "int_u16", "int_big", "int_neg", "int_huge"}   \* int_huge: more decimal digits than str() gives
 IsFloat(v) == v \in {"float_integral", "float_fractional", "float_inf", "float_nan"}
 IsStr(v)   == v \in {"str_numeric", "str_short", "str_long", "str_layout"}
 IsBytes(v) == v \in {"bytes_numeric", "bytes_short", "bytes_long"}
@@ -52,10 +53,18 @@ Arrives(c, v) ==
   CASE c = "refused" -> "refused"
     [] c = "container" -> "same"
     [] c \in {"BININT1", "BININT2"} -> IF v = "bool" THEN "different-kind" ELSE "same"
-    [] c \in {"INT", "LONG"} -> IF IsInt(v) THEN "same" ELSE IF v = "float_fractional" THEN "different-value" ELSE "different-kind"
+    [] c \in {"INT", "LONG"} -> IF v = "int_huge" THEN (IF HexFallback THEN "same" ELSE "refused")   \* str(value) raises ValueError; the unpickler reads base 0
+                               ELSE IF IsInt(v) THEN "same" ELSE IF v = "float_fractional" THEN "different-value" ELSE "different-kind"
     [] c = "BINFLOAT" -> "refused"                 \* no encode_body: dumps() raises NotImplementedError
     [] c \in {"SHORT_BINUNICODE", "BINUNICODE", "BINUNICODE8", "SHORT_BINBYTES", "BINBYTES", "BINBYTES8"} -> "same"
     [] OTHER -> "unknown"
+
+\* what the standard disassembler (pickletools: decimal only) reads back from the chosen opcode's bytes
+ReadsBack(c, v) ==
+  CASE c \in {"refused", "container"} -> "refused"
+    [] c \in {"INT", "LONG"} /\ v = "int_huge" -> IF HexFallback THEN "unreadable" ELSE "refused"
+    [] c = "BINFLOAT" -> "refused"
+    [] OTHER -> "same"
 
 RoundTrip == \A v \in ValueClass : Arrives(Chosen(v), v) \in {"same", "refused"}
 
@@ -64,5 +73,6 @@ Init == cell \in ValueClass
 Next == UNCHANGED cell
 Spec == Init /\ [][Next]_cell
 RoundTripInv == Arrives(Chosen(cell), cell) \in {"same", "refused"}
+ReadBackInv  == ReadsBack(Chosen(cell), cell) \in {"same", "refused"}
 Emit == PrintT(<<"CELL", ToJson([cls |-> cell, chosen |-> Chosen(cell), arrives |-> Arrives(Chosen(cell), cell)])>>)
 =============================================================================
